@@ -88,22 +88,24 @@ def refix_signature(want_hex, got_hex):
     return "samelen"
 
 
-def scan(w, s, name, tier, kinds_wanted, known, prop, survey, align=0):
+def scan(w, s, name, tier, kinds_wanted, known, prop, survey, align=0, deep=False):
     """runs c07scan for one cpu; returns list of violation payloads for `prop`"""
-    step = 8 if tier == "quick" else 1
+    step = 7 if tier == "quick" else 1          # odd: a power of two would pin the low bits of the second byte
     tails = 1 if tier == "quick" else 3
     errpos = os.path.getsize(w.errpath) if os.path.exists(w.errpath) else 0
-    passes = [dict(step=str(step), tails=str(tails), stails="0", lo="0")]
-    if align == 4:
-        # 32-bit instruction words: structured second half words (single bits, adjacent bit pairs, masks) on a
-        # stride that is coprime to every field width
+    # deep (byte-oriented ISAs): where the third or fourth byte selects the instruction (prefix opcodes, post bytes)
+    # all 256 values of that byte are explored for the leading pattern
+    passes = [dict(step=str(step), tails=str(tails), stails="0", lo="0", deep="1" if deep else "0")]
+    if align in (2, 4):
+        # 32-bit instruction words / 16-bit words with extension words: structured second half words (single bits,
+        # adjacent bit pairs, masks such as 0x00ff / 0xff00) on a stride that is coprime to every field width
         passes.append(dict(step="65" if tier == "quick" else "13", tails="0", stails="37", lo="3"))   # quick is a subset of thorough
     anomalies = b""
     tot = dict(evals=0, accepted=0, closed=0, unknown=0, stripped=0)
     for ps in passes:
         try:
             r = w.call({"cmd": "c07scan", "cpu": name, "lo": ps["lo"], "hi": "65535", "step": ps["step"], "tails": ps["tails"],
-                        "stails": ps["stails"], "addr": "256"})
+                        "stails": ps["stails"], "addr": "256", "deep": ps.get("deep", "0")})
         except (WorkerCrash, WorkerTimeout) as e:
             s.notes.append("HARNESS-ERROR c07scan for %s did not complete: %s" % (name, type(e).__name__))
             return []
@@ -199,7 +201,8 @@ def run(tier, seed, shard, nshards):
         cpus = w.cpus()
         mine = [c for i, c in enumerate(cpus) if i % nshards == shard]
         for c in mine:
-            for v in scan(w, s, c["name"], tier, ("c07_mismatch", "asm_crash", "asm_hang"), known, PROP, survey, c["align"]):
+            for v in scan(w, s, c["name"], tier, ("c07_mismatch", "asm_crash", "asm_hang"), known, PROP, survey, c["align"],
+                          deep=(c["unit"] == 1 and c["align"] == 1)):
                 s.violations.append(v)
     finally:
         w.close()
@@ -217,7 +220,7 @@ def replay(payload):
     try:
         p = payload["pattern"]
         r = w.call({"cmd": "c07scan", "cpu": payload["cpu"], "lo": str(p), "hi": str(p), "step": "1", "tails": "3",
-                    "stails": "37", "addr": "256"})
+                    "stails": "37", "addr": "256", "deep": "1"})
         for line in r["anomalies"].decode("latin-1").split("\n"):
             f = line.split("\t")
             if f[0] == payload["kind"] or (payload["kind"].startswith("asm_") and f[0] == payload["kind"][4:]):
